@@ -117,6 +117,11 @@ func SameFloat(a, b float64) bool {
 // checks their preconditions at this point and may use their postconditions.
 func Lemma(f func()) {}
 
+// SameText reports whether two strings have the same bytes.  In Go that is ==; the
+// engine proves it byte by byte (so that differently assembled texts compare equal)
+// and assumes it as equality.  Use it only in positive positions of postconditions.
+func SameText(a, b string) bool { return a == b }
+
 // Same reports whether a and b are the same value; for slices: the same backing
 // array and length (what "the function returned its argument unchanged" means).
 func Same(a, b any) bool {
